@@ -208,6 +208,8 @@ def run(ctx):
     rng = ctx.rng
     n = ctx.budget(70_000, 700_000)
     done = 0
+    from .. import longrun
+    early = longrun.Early()
     while done < n and ctx.alive():
         case = G.gen_t3_case(rng)
         if case is None:
@@ -230,11 +232,18 @@ def run(ctx):
         ctx.sample({"T": time, "rate": rate, "accel": accel, "jerk": jerk, "accum": accum,
                     "ambient": ambient.describe()}, tag=classes[0])
         one_case(ctx, mon, time, rate, accel, jerk, accum, ambient)
+        early.remember((time, rate, accel, jerk, accum))
         if rng.random() < 0.3:
             related_calls(ctx, mon, rng, time, rate, accel, jerk, accum)
         if time <= 3000 and done % 4 == 0:
             self_check(ctx, time, rate, accel, jerk, accum)
         done += 1
+    from plotink import ebb_calc as _ec
+    longrun.churn_then_replay(
+        ctx, _ec, "move_dist_t3", lambda k: (1 + k % 5, 1000 + k, k % 17 - 8, (k % 3) - 1, k % 1000), early,
+        lambda it: one_case(ctx, mon, it[0], it[1], it[2], it[3], it[4], G.Ambient("dps", 15)))
+    ctx.need("history: asked again after 100000+ other distinct requests", 30)
+
     import_time_phase(ctx, ctx.budget(800, 6000))
     mon = install(ctx)
     for cls in NEEDED + ["history: related arguments after a previous call", "module imported under low precision",
